@@ -472,6 +472,18 @@ def check_builders_algebra(ctx, db):
     ctx.require('R-ALGEBRA builder identities', n, 14)
 
 
+def check_dimensions(ctx, db):
+    """R-DIM: additions, subtractions and comparisons in the outline code combine equal powers of length"""
+    from .. import dims
+    seeds = {'tolerance': 1, 'tolerance_sq': 2, 'tol_sq': 2, 'spine_points': 1, 'half_widths': 1, 'offsets': 1, 'path_offsets': 1, 'path_half_widths': 1, 'bend_radius': 1, 'radius': 1, 'center_radius': 1, 'half_width_and_offset': 1, 'point_array': 1, 'end_extensions': 1, 'width': 1, 'offset': 1, 'half_width': 1, 'p': 1, 'p0': 1, 'p1': 1, 'p2': 1, 'p3': 1, 'p_next': 1, 'center': 1, 'cap_l': 1, 'cap_r': 1}
+    n = 0
+    for qn, mins in (('gdstk::RobustPath::to_polygons', 20), ('gdstk::RobustPath::left_intersection', 4), ('gdstk::RobustPath::right_intersection', 4)):
+        f = db.fn(qn)
+        ctx.touch(f)
+        n += dims.check(ctx, f, seeds, min_sites=mins)
+    ctx.require('R-DIM resolved sites', n, 28)
+
+
 def run(ctx):
     db = ctx.db
     check_bookkeeping(ctx, db)
@@ -497,10 +509,11 @@ def run(ctx):
     n, table = consume.check_commands(ctx, f)
     ctx.require('R-CONSUME arms', n, 10)
     ctx.extra['command_table'] = table
+    check_dimensions(ctx, db)
 
 
 MANIFEST = dict(
-    text='Decides structural necessary conditions of RobustPath consistency on every path: each section append is followed by exactly one fill_widths_and_offsets, which gives every element one width and one offset entry on all four branch combinations; no builder reads the path transform (frame discipline); the four point samplers, the four intersection searches and the four parameter-query prologues are clone families evaluating only their own side, with the sampler step clamped to the section end; look-ahead iterators advance with their loops in to_polygons/element_center/spine and the trailing cursors of the parallel section/offset/width arrays jump together; the OASIS PATH half-width is half and the GDSII WIDTH the full interpolated width; SubPathType/InterpolationType/EndType switches are exhaustive (defaults frozen); RobustPath::commands consumes exactly the operands its guard and advance constants state; SubPath::gradient is, symbolically, the derivative of SubPath::eval for segment, arc, quadratic and cubic sections, under the same linear transform; the builders segment/cubic/cubic_smooth/quadratic/quadratic_smooth store exactly the documented control points in relative and absolute mode and the smooth variants are C1 (the gradient of the new section at 0, taken from the matching arm of SubPath::gradient, equals the previous end gradient); the path-matrix methods translate, simple_scale, scale, simple_rotate, rotate, x_reflection and transform (both reflection states) update the 2x3 matrix so that, identically, every section point is mapped to the documented image of its previous image. Sampling accuracy, intersection convergence and cap geometry are not decided.',
+    text='(R-DIM) A powers-of-length analysis of to_polygons and the intersection searches finds every addition and comparison dimensionally consistent; Decides structural necessary conditions of RobustPath consistency on every path: each section append is followed by exactly one fill_widths_and_offsets, which gives every element one width and one offset entry on all four branch combinations; no builder reads the path transform (frame discipline); the four point samplers, the four intersection searches and the four parameter-query prologues are clone families evaluating only their own side, with the sampler step clamped to the section end; look-ahead iterators advance with their loops in to_polygons/element_center/spine and the trailing cursors of the parallel section/offset/width arrays jump together; the OASIS PATH half-width is half and the GDSII WIDTH the full interpolated width; SubPathType/InterpolationType/EndType switches are exhaustive (defaults frozen); RobustPath::commands consumes exactly the operands its guard and advance constants state; SubPath::gradient is, symbolically, the derivative of SubPath::eval for segment, arc, quadratic and cubic sections, under the same linear transform; the builders segment/cubic/cubic_smooth/quadratic/quadratic_smooth store exactly the documented control points in relative and absolute mode and the smooth variants are C1 (the gradient of the new section at 0, taken from the matching arm of SubPath::gradient, equals the previous end gradient); the path-matrix methods translate, simple_scale, scale, simple_rotate, rotate, x_reflection and transform (both reflection states) update the 2x3 matrix so that, identically, every section point is mapped to the documented image of its previous image. Sampling accuracy, intersection convergence and cap geometry are not decided.',
     note='Trusted: clang front end, gx, sa rules. The direct-builder set is discovered (methods appending to subpath_array) and compared with the confirmed list, so a new builder is reported until it is paired and listed.',
     technique='post-dominance pairing over the CFG + who-may-read effect rule + clone families with callee abstraction + look-ahead iterator rule + operand-consumption tables',
     design='§4 C08')
